@@ -724,6 +724,27 @@ func c19Answer(r *rand.Rand, req *c19Req) (fail bool, pre []c19Pre, failAt int) 
 	return false, pre, failAt
 }
 
+// an answer of n >= 2 complete commitments whose embedded bids differ pairwise in every field
+// (and whose own digest/signature/address differ too); valid UTF-8, so expressible over gRPC
+func c19DistinctAnswer(r *rand.Rand, n int) []c19Pre {
+	pre := make([]c19Pre, n)
+	nz := func(k int) []byte { // non-empty, different for different k
+		b := make([]byte, 1+r.Intn(40))
+		r.Read(b)
+		return append([]byte{byte(k)}, b...)
+	}
+	for i := range pre {
+		hs := make([]string, 1+i%3)
+		for j := range hs {
+			hs[j] = string(c19ValidHash(r))
+		}
+		pre[i] = c19Pre{Digest: nz(i), Sig: nz(i), Prov: nz(i), Bid: &c19PBid{
+			Tx: []byte(strings.Join(hs, ",")), Amount: []byte(strconv.Itoa(1000 + 7*i + r.Intn(5))),
+			BN: int64(10 + i), DS: int64(1000 + 3*i), DE: int64(5000 - 11*i), Digest: nz(i), Sig: nz(i)}}
+	}
+	return pre
+}
+
 func c19ValidUTF8(in c19In) bool {
 	if in.Req == nil || in.Req.Nil || !utf8.Valid(in.Req.Amount) {
 		return false
@@ -950,6 +971,15 @@ func TestVerifC19(t *testing.T) {
 		send("duplicates", c19DupReq(r, m), "grpc")
 	}
 
+	// 2c. one request answered by two or more commitments with pairwise different embedded bids: every
+	// streamed message is compared field by field with the commitment received at the same index
+	for n := 2; n <= 6; n++ {
+		for _, kind := range []string{"send", "grpc"} {
+			run("distinct-bids", c19In{Kind: kind, Req: c19ValidReq(r), Pre: c19DistinctAnswer(r, n), FailAt: -1})
+		}
+	}
+	run("distinct-bids", c19In{Kind: "send", Req: c19ValidReq(r), Pre: c19DistinctAnswer(r, 4), FailAt: 2})
+
 	// 2b. bytes versus runes: multi-byte digits and invalid UTF-8 at the first and the last position of
 	// a hash (once with 64 bytes in total, once with 64 runes in total) and of an amount
 	for _, seq := range []string{"é", "٣", "３", "\U0001D7D1", "\xff", "\x80", "\xc3", "\xa9", "\xc0\xb1", "\xed\xa0\x80",
@@ -980,7 +1010,10 @@ func TestVerifC19(t *testing.T) {
 	for i := 0; i < e.N; i++ {
 		switch i % 5 {
 		case 0, 1: // valid requests with rich commitment contents (one in four repeats hashes)
-			if r.Intn(4) == 0 {
+			if r.Intn(8) == 0 {
+				run("distinct-bids", c19In{Kind: []string{"send", "grpc"}[r.Intn(2)], Req: c19ValidReq(r),
+					Pre: c19DistinctAnswer(r, 2+r.Intn(4)), FailAt: -1})
+			} else if r.Intn(4) == 0 {
 				send("duplicates", c19DupReq(r, r.Intn(c19DupModes)), "send")
 			} else {
 				send("valid", c19ValidReq(r), "send")
